@@ -5,6 +5,8 @@ import ChessVerif.Model.Text
 import ChessVerif.Lemmas.SanShapes
 import ChessVerif.Lemmas.SanRound
 import ChessVerif.Lemmas.GenShapeWf
+import ChessVerif.Lemmas.EpExact
+import ChessVerif.Lemmas.Shows
 namespace Chess.Props
 
 /-- C17 (matcher): on every text shape the printer can produce for a piece move — any of N B R Q K, with or without
@@ -105,5 +107,34 @@ example : genShapeB c17Start = true ∧ (genMoves c17Start).length = 20 := by de
 theorem C17_roundtrip_wf (p : Position) (hwf : Spec.wf (Chess.absPos p) = true) (m : Nat) (hm : m ∈ genMoves p) :
     parseSan p (san p m) = some m :=
   C17_roundtrip p (genShapeB_of_wf p hwf) m hm
+
+/-- **C17, "and no other legal move"**: on a well-formed position two generated moves with the same SAN text are the same move —
+    the printed text is unambiguous -/
+theorem C17_unambiguous (p : Position) (hwf : Spec.wf (Chess.absPos p) = true) (m1 m2 : Nat)
+    (h1 : m1 ∈ genMoves p) (h2 : m2 ∈ genMoves p) (h : san p m1 = san p m2) : m1 = m2 := by
+  have a := C17_roundtrip_wf p hwf m1 h1
+  have b := C17_roundtrip_wf p hwf m2 h2
+  rw [h, b] at a
+  exact (Option.some.inj a).symm
+
+/-- **C17 over the rules' own quantifier** ("every legal move in every legal position"): for every move that is legal under the
+    rules of chess (Spec/Rules.lean) in a well-formed position, the SAN text of its code parses back to exactly that code, and the text
+    of no other legal move is the same (through `exact_all`, C01: the legal moves are exactly the generated ones) -/
+theorem C17_legal_rules (p : Position) (hwf : Spec.wf (Chess.absPos p) = true) (m : Spec.SMove)
+    (hm : m ∈ Spec.legalMoves (Chess.absPos p)) :
+    parseSan p (san p (codeOf (Chess.absPos p) m)) = some (codeOf (Chess.absPos p) m) ∧
+    ∀ m', m' ∈ Spec.legalMoves (Chess.absPos p) →
+      san p (codeOf (Chess.absPos p) m') = san p (codeOf (Chess.absPos p) m) → codeOf (Chess.absPos p) m' = codeOf (Chess.absPos p) m := by
+  have g : ∀ x, x ∈ Spec.legalMoves (Chess.absPos p) → codeOf (Chess.absPos p) x ∈ genMoves p :=
+    fun x hx => (exact_all p hwf _).2 ⟨x, hx, rfl⟩
+  exact ⟨C17_roundtrip_wf p hwf _ (g m hm), fun m' hm' h => C17_unambiguous p hwf _ _ (g m' hm') (g m hm) h⟩
+
+/-- **C17 on every position of every legal game from the initial position**: every legal move's SAN text parses back to it and to
+    no other legal move -/
+theorem C17_reachable (p : Position) (ms : List Spec.SMove) (h : Shows p ms) (m : Spec.SMove) (hm : m ∈ Spec.legalMoves (Chess.absPos p)) :
+    parseSan p (san p (codeOf (Chess.absPos p) m)) = some (codeOf (Chess.absPos p) m) ∧
+    ∀ m', m' ∈ Spec.legalMoves (Chess.absPos p) →
+      san p (codeOf (Chess.absPos p) m') = san p (codeOf (Chess.absPos p) m) → codeOf (Chess.absPos p) m' = codeOf (Chess.absPos p) m :=
+  C17_legal_rules p (wf_of_shows p ms h) m hm
 
 end Chess.Props
